@@ -49,12 +49,9 @@ static Outcome run(tape_t const& tape)
         std::string err = in.check_wave(w);
         if (!err.empty()) { out = Outcome::fail("ledger_after_wait", err); break; }
     }
-    if (out.kind == Outcome::PASS)
-    {
-        MainWaiting mw;
-        stop_runtime();
-    }
+    // the detector samples pool state: it must be gone before the pools are torn down
     q.finish();
+    if (out.kind == Outcome::PASS) stop_runtime();
     add_monitor_counters(out);
     out.counters["tasks"] = static_cast<long long>(c.prog.tasks.size());
     out.nontrivial = G().migrations.load() > 0 || G().suspends.load() > 0 || G().rebinds.load() > 0;
